@@ -825,7 +825,7 @@ int main(int argc, char *argv[])
       size_t       argLength       = strlen(p_arg);
       const size_t max_args_length = 256;
 
-      if (argLength > max_args_length)
+      if (argLength >= max_args_length)                  // (the terminator needs a place too)
       {
          fprintf(stderr, "The buffer is to short for the set argument '%s'\n", p_arg);
          log_flush(true);
